@@ -2,6 +2,7 @@ SPECIFICATION Spec
 CONSTANTS
   Pairs = {"covmat"}
   Models = {"A", "C"}
+  Small = TRUE
 INVARIANT Inv_PairHolds Inv_MigDeviationsClassified
 CONSTRAINT Emit
 CHECK_DEADLOCK FALSE
